@@ -81,6 +81,10 @@ def gen_one(r, i, tier):
                 "under": cnt, "over": cnt, "nan": cnt}
         fast = False
         dyadic = False
+    # boolean categories: a Categorize over a comparison (a numpy bool array in the vectorised fill)
+    for s_ in gen.walk(spec):
+        if s_["k"] == "Categorize" and r.random() < 0.25:
+            s_["q"]["e"] = ["<", ["f", r.randint(0, 2)], ["c", r.choice([0.5, 0.0, -1.0, 1.25])]]
     # quantities read named columns: d["x"] works on a dict of arrays, a record array and a dict row
     for s_ in gen.walk(spec):
         if "q" in s_:
